@@ -607,4 +607,55 @@ Section DriverProofs.
             fold (sfun head x (p ++ m)); rewrite FA; reflexivity.
         * symmetry. apply onx_app; auto; [intros ? ?; discriminate | rewrite app_length; lia].
   Qed.
+
+  Local Notation parse' := (parse W X xnew xstep xrooted dispatch).
+  Local Notation run' := (run W X xnew xstep xrooted dispatch).
+
+  Lemma parse_app (s : st') a b : parse' (parse' s a) b = parse' s (a ++ b).
+  Proof.
+    unfold parse. rewrite app_length.
+    set (n := S (size s + (length a + length b))).
+    rewrite (go_app n s a b) by (unfold n; lia).
+    pose proof (go_size n s a) as B1. 
+    rewrite (go_fuel (S (size s + length a)) n s a) by (unfold n; lia).
+    apply go_fuel; unfold n in *; lia.
+  Qed.
+
+  Lemma run_concat : forall reads (s : st') r, run' s (r :: reads) = parse' s (concat (r :: reads)).
+  Proof.
+    induction reads as [|r2 rs IH]; intros s r.
+    - cbn. now rewrite app_nil_r.
+    - change (run' s (r :: r2 :: rs)) with (run' (parse' s r) (r2 :: rs)). rewrite IH, parse_app. reflexivity.
+  Qed.
+
 End DriverProofs.
+
+Lemma segments_concat : forall cuts stream, concat (segments stream cuts) = stream.
+Proof.
+  induction cuts as [|k ks IH]; intros stream; cbn [segments concat].
+  - apply app_nil_r.
+  - rewrite IH. apply firstn_skipn.
+Qed.
+
+Lemma segments_cons cuts stream : exists r rs, segments stream cuts = r :: rs.
+Proof. destruct cuts; cbn; eauto. Qed.
+
+Lemma c18_segmentation_independent W X xnew xstep xrooted dispatch :
+  (forall w x c x' o, xstep w x c = XOk x' o -> xrooted x = true -> xrooted x' = true) ->
+  (forall w, xrooted (xnew w) = false) ->
+  forall s stream cuts,
+    run W X xnew xstep xrooted dispatch s (segments stream cuts) = run W X xnew xstep xrooted dispatch s [stream].
+Proof.
+  intros Hm Hn s stream cuts. destruct (segments_cons cuts stream) as (r & rs & E).
+  rewrite E, !(run_concat W X xnew xstep xrooted dispatch Hm Hn), <- E, segments_concat. cbn. now rewrite app_nil_r.
+Qed.
+
+Lemma c18_reads_independent W X xnew xstep xrooted dispatch :
+  (forall w x c x' o, xstep w x c = XOk x' o -> xrooted x = true -> xrooted x' = true) ->
+  (forall w, xrooted (xnew w) = false) ->
+  forall s reads1 reads2, reads1 <> [] -> reads2 <> [] -> concat reads1 = concat reads2 ->
+    run W X xnew xstep xrooted dispatch s reads1 = run W X xnew xstep xrooted dispatch s reads2.
+Proof.
+  intros Hm Hn s [|r1 t1] [|r2 t2] N1 N2 E; try congruence.
+  rewrite !(run_concat W X xnew xstep xrooted dispatch Hm Hn). f_equal. exact E.
+Qed.
